@@ -207,9 +207,10 @@ def _replay_instance(inst, eps=0):
                     exp = -1.0 if sq < 0 else emitted.get((pname, sq))
                     if exp is None or abs(float(a_data[j]) - exp) > 1e-5:
                         bad = True
-            h = 0.0
+            tg = f"step_{kind}"
+            h = (sum(ord(ch) for ch in tg) % 17) * 0.0625
             for i, x in enumerate(a):
-                h += float(np.sum(np.asarray(x, dtype=np.float64))) * (0.5 + 0.25 * i)
+                h += float(np.sum(np.asarray(x, dtype=np.float64))) * (0.5 + 0.25 * i + (sum(ord(ch) for ch in tg) % 5) * 0.125)
             emitted[(kind, int(a[0]))] = float(np.float32(2 * 0.125 + h))
         return bad
     except BaseException:  # noqa
